@@ -4,6 +4,8 @@ import (
 	"fmt"
 	"testing"
 
+	"verif/internal/connsim"
+
 	"github.com/cybergarage/go-redis/redis/proto"
 	"pgregory.net/rapid"
 
@@ -95,12 +97,60 @@ func c02Classes(data []byte, sizes []int, nvals int) (nontrivial bool, classes [
 	return
 }
 
-func init() { register("c02.stream", evalC02) }
+// c02Server: the same independence of chunking, through the server's own connection path (the parser reads
+// through whatever the connection loop wraps the transport in): ECHO of generated payloads, pipelined, chunked.
+type c02Server struct {
+	Payloads []resp.Bin `json:"-"`
+	Lens     []int      `json:"lens"` // payload i = Fill[i] repeated Lens[i] times (kept short in the replay file)
+	Fill     []byte     `json:"fill"`
+	Sizes    []int      `json:"sizes"` // chunk sizes of the request stream
+}
+
+func (c c02Server) payload(i int) []byte {
+	out := make([]byte, c.Lens[i])
+	for j := range out {
+		out[j] = c.Fill[i] + byte(j%7)
+	}
+	return out
+}
+
+func evalC02Server(c c02Server) *Failure {
+	srv, _ := newRecServer()
+	var stream []byte
+	for i := range c.Lens {
+		stream = resp.CmdB([]byte("ECHO"), c.payload(i)).Encode(stream)
+	}
+	conn := connsim.NewPreloaded(1, connsim.Chunks(stream, c.Sizes))
+	o := connsim.Serve(srv, conn, serveTimeout())
+	what := fmt.Sprintf("ECHO of payload lengths %v delivered in chunks %v", c.Lens, c.Sizes)
+	if o.TimedOut {
+		return stallFailure("c02|server", what)
+	}
+	if o.Panic != nil {
+		return failf("c02|server|panic|"+panicKey(o), "%s: panic: %v", what, o.Panic)
+	}
+	frames, _, err := conn.Frames()
+	if err != nil || len(frames) != len(c.Lens) {
+		return failf("c02|server|replies", "%s: %d replies for %d requests (%v); the connection loop returned %v", what, len(frames), len(c.Lens), err, o.Err)
+	}
+	for i := range frames {
+		if !frames[i].Equal(resp.BB(c.payload(i))) {
+			return failf("c02|server|value", "%s: reply %d is not the payload that was sent (got %d bytes %q...)", what, i, len(frames[i].Data), clip(frames[i].Data))
+		}
+	}
+	return nil
+}
+
+func init() {
+	register("c02.stream", evalC02)
+	register("c02.server", evalC02Server)
+}
 
 func TestC02(t *testing.T) {
 	h := newHarness(t, "C02", "sequences of 1..8 value trees (as C01, bulks to 64KiB) concatenated and delivered through a chunking reader: every 2-way split point "+
 		"(all of them for streams <= 400 bytes, all length-prefix/CR-LF cuts plus 64 sampled otherwise), all-1-byte delivery, and random k-way partitions biased to length prefixes and CR|LF. "+
 		"Oracle: i-th Next() equals i-th value, bytes consumed after it equal the value's end offset exactly, then (nil,nil). "+
+		"Plus the same through the server's connection path: pipelined ECHO requests with payloads around 4 KiB / 8 KiB / 64 KiB boundaries in generated chunkings (single cut, fixed segments, random), every reply must be the payload sent. "+
 		"Non-trivial: >=2 values and a chunk boundary strictly inside the stream. Distinct = distinct (stream, partition).")
 	defer h.Finish()
 	h.Probes()
@@ -167,6 +217,50 @@ func TestC02(t *testing.T) {
 			cc.Sizes = cc.Sizes[:len(data)-1]
 			run(rt, cc, data, "one-byte-reads")
 		}
+	})
+
+	// through the server's connection path, with payloads around the sizes of read-ahead and growth buffers
+	h.Rapid("server", h.N(1500, 15000), func(rt *rapid.T) {
+		c := c02Server{}
+		n := rapid.IntRange(1, 4).Draw(rt, "n")
+		total := 0
+		for i := 0; i < n; i++ {
+			var l int
+			switch rapid.IntRange(0, 3).Draw(rt, "lencls") {
+			case 0:
+				l = rapid.SampledFrom([]int{4090, 4093, 4094, 4095, 4096, 4097, 8191, 8192, 8193, 65533, 65534, 65535, 65536, 65537, 70000, 131072}).Draw(rt, "blen")
+			case 1:
+				l = rapid.IntRange(0, 9000).Draw(rt, "len")
+			default:
+				l = rapid.IntRange(0, 40).Draw(rt, "small")
+			}
+			c.Lens = append(c.Lens, l)
+			c.Fill = append(c.Fill, byte(rapid.IntRange(0, 248).Draw(rt, "fill")))
+			total += l + 30
+		}
+		switch rapid.IntRange(0, 4).Draw(rt, "chunking") {
+		case 0:
+		case 1:
+			c.Sizes = []int{rapid.IntRange(1, total).Draw(rt, "cut")}
+		case 2:
+			sz := rapid.SampledFrom([]int{1000, 1460, 4096, 16384}).Draw(rt, "segment")
+			for off := 0; off < total; off += sz {
+				c.Sizes = append(c.Sizes, sz)
+			}
+		default:
+			for i, k := 0, rapid.IntRange(1, 6).Draw(rt, "k"); i < k; i++ {
+				c.Sizes = append(c.Sizes, rapid.IntRange(1, total/2+1).Draw(rt, "size"))
+			}
+		}
+		big := false
+		for _, l := range c.Lens {
+			big = big || l >= 4000
+		}
+		h.Col.Case(big && n >= 2 && len(c.Sizes) > 0, []byte(fmt.Sprint(c.Lens, c.Fill, c.Sizes)), "server-path")
+		if h.Col.WantSample() {
+			h.Col.Sample(map[string]any{"mode": "server-path", "payload_lengths": c.Lens, "chunk_sizes": c.Sizes})
+		}
+		h.Fail(rt, "c02.server", c, evalC02Server(c))
 	})
 
 	// random k-way partitions
